@@ -1,0 +1,9 @@
+//! C20 hook: build a `DefGateSequence` without `try_new`'s validation, so that the expansion's
+//! defensive error paths (empty qubit parameter list, undefined / non-variable element qubits)
+//! can be driven by the correspondence harness. Add-only, `cfg(rigetti_quil_rs_verif)`.
+use crate::instruction::{DefGateSequence, Gate};
+
+/// `DefGateSequence { qubits, gates }` with no validation (the fields are `pub(crate)`).
+pub fn def_gate_sequence_unchecked(qubits: Vec<String>, gates: Vec<Gate>) -> DefGateSequence {
+    DefGateSequence { qubits, gates }
+}
